@@ -1,7 +1,7 @@
 """Which harness modules decide which property, with the kani flags, bounds and claim text that
 go into the evidence file. Harness lists are read from the module source on every run."""
 
-NODEF = ["--no-default-checks"]          # functional harnesses: assertions + unwinding assertions only
+NODEF = ["--no-default-checks", "--no-assertion-reach-checks"]          # functional harnesses: assertions + unwinding assertions only
 STUB = ["-Z", "stubbing"]
 
 CRATES = {
@@ -106,4 +106,18 @@ PROPS["C09"] = {
                   "Tables are also compared with the generator's per-square functions.",
     "level_note": "Complete in the domain for the table-vs-definition clause. Generator agreement covers the six per-square generator functions; between()/line() generators are not encoded (stated).",
     "design_ref": "DESIGN.md section 4 L0/C09",
+}
+
+PROPS["LEM"] = {"title": "internal: F-level stubs == S-level geometry", "claimed": False,
+                "groups": [{"crate": "core", "module": "lemmas", "timeout_q": 600}]}
+
+# concretised (side to move, king square) index = turn*64 + square.  e1 = 4, e8 = 60.
+KING_ALWAYS = {"*": [], "king": [4, 64 + 60]}
+PROPS["C01"] = {
+    "title": "Generated moves are exactly the legal moves of chess",
+    "groups": [
+        {"crate": "core", "module": "lemmas", "timeout_q": 600},
+        {"crate": "core", "module": "c01_units", "flags": NODEF + STUB, "timeout_q": 600, "timeout_t": 3000, "mem_q": 10,
+         "seeded_family": {"pattern": r"_k_(\d+)$", "count": 2, "always": KING_ALWAYS}},
+    ],
 }
